@@ -21,6 +21,7 @@ MANIFEST = dict(
           "The only documented global state (the tolerance pair) is not written by any query (C19's frame); state hidden outside the objects (memoised answers, class-level caches) is outside what per-call frames express and is covered by the history prelude and the bounded histories below."),
     note=("ConvexPolygon / ConvexPolyhedron construction and the builders, ==, hash, repr, length, area, volume on concrete catalogue objects, the same question asked again after the caller moved the answer or an operand (every designed pair of every type combination), negation of polygons, class-level attributes, and random interleavings of queries, constructions from shared Points, in-place mutations of the shared "
           "arguments and deep copies with full attribute snapshots are a labelled bounded stand-in (not counted as proved). A4: hash sets deduplicate by ==."),
+    technique='contract-based deductive verification of frame and ownership clauses on every path of every proved query contract (z3) + labelled bounded differential histories (queries, in-place moves, repeated questions, tolerance as state) against freshly built objects',
     design_ref="DESIGN.md section 9 (C20), section 2.2 (frame conditions)",
 )
 EXPLANATION = "frame clauses of all proved query contracts + ownership clauses of the flat constructors; heap shape is concrete on each path, so the structural comparison is exact per path"
